@@ -108,4 +108,3 @@ spec fn air_wf(air: Air) -> bool {
     lines_ok(air.ast@) && air.ast@.len() <= 0xFFFF && bp_wf(air.breakpoints.0@)
     && (forall|i: int| 0 <= i < air.breakpoints.0@.len() ==> (#[trigger] air.breakpoints.0@[i]).address as int <= air.ast@.len())
 }
-spec fn lines_ok(ast: Seq<AsmLine>) -> bool { forall|i: int| 0 <= i < ast.len() ==> (#[trigger] ast[i]).line as int == i + 1 }
